@@ -261,13 +261,6 @@ def canon(ans):
     return "RET %s N %d CYC %s" % (a[1], len(a[2]), " ".join("%d %s" % (len(c), " ".join(map(str, sorted(c, key=key)))) for c in a[2]))
 
 
-def recover_scan(es, ret, drop):
-    """weight-sorted merge of the retained and dropped sequences, retained first on ties (reproduces std::sort's outcome, see C15)"""
-    out, i, j = [], 0, 0
-    while i < len(ret) or j < len(drop):
-        if j >= len(drop) or (i < len(ret) and es[ret[i]][2] <= es[drop[j]][2]): out.append(ret[i]); i += 1
-        else: out.append(drop[j]); j += 1
-    return out
 
 
 def lst(xs): return "%d %s" % (len(xs), " ".join(map(str, xs)))
@@ -281,8 +274,7 @@ def model_case(case, f, dans):
     except Exception:
         return None
     if sorted(spr + spd) != list(range(len(es))): return None
-    scan = recover_scan(es, spr, spd)
-    head = "%d %s %s" % (k, gen.graph_tokens((n, es)), lst(scan))
+    head = "%d %s M %s %s" % (k, gen.graph_tokens((n, es)), lst(spr), lst(spd))    # M: the driver merges with the extracted merge_scan
     if alg == "signed":
         return "signed", "%s %s %s" % (head, lst(f.get("ROOTS", [])), lst(f.get("EORD", [])))
     a = parse_answer(dans)
@@ -451,7 +443,7 @@ def run(c, tier, what):
         if n > 26 or len(es) > 100 or nsp * len(es) > (2500 if tier == "quick" else 6000): continue
         t = mcase[i][1].split()
         # given: k <graph> <scan> sw N cycles  ->  fvstrees: k <graph> <scan> <roots> <picks> N cycles
-        gend = 3 + 3 * len(es); send = gend + 1 + len(es)
+        gend = 3 + 3 * len(es); send = gend + (3 if t[gend] == "M" else 1) + len(es)     # <scan> is "m e1..em" or "M r ret.. d drop.."
         aidx.append((i, "%s %s %s %s" % (" ".join(t[:send]), lst(f.get("ROOTS", [])), lst(f["FVS"]), " ".join(t[send + 1:]))))
     for (i, _), o in zip(aidx, lib.run_model("fvstrees", [x[1] for x in aidx], group="c05", timeout=1500)):
         acc_out[i] = o
@@ -751,8 +743,7 @@ def tbb_model_case(d, s):
         return None
     es = d["es"]
     if sorted(spr + spd) != list(range(len(es))): return None
-    scan = recover_scan(es, spr, spd)
-    head = "%d %s %s" % (d["k"], d["gt"], lst(scan))
+    head = "%d %s M %s %s" % (d["k"], d["gt"], lst(spr), lst(spd))    # M: the driver merges with the extracted merge_scan
     bits = "%d %s" % (len(d["bits"]), d["bits"] or "-")
     if d["alg"] == "signed":
         return "signedtbb", "%s %s %s %s %s %s %s" % (head, lst(f.get("ROOTS", [])), lst(f.get("EORD", [])), bits,
